@@ -67,10 +67,21 @@ func zzC10History() {
 	mm := &zzMapModel{}
 	var its []*zzIter
 	open := 0
+	// PRE entries added up front (distinct keys), so that D steps reach deeper iterator scenarios
+	for i := 0; i < vParam("PRE"); i++ {
+		k, v := vInt("k0"), vInt("v0")
+		vAssume(mm.find(k) < 0)
+		vAssert(m.Add(k, v) == nil, "Add of a new key failed")
+		mm.ents = append(mm.ents, zzEnt{mm.next, k, v, true})
+		mm.next++
+	}
 	for step := 0; step < D; step++ {
 		op := vChoose("op", 7)
 		if op == 6 {
 			break
+		}
+		if op == 0 && vParam("PRE") > 0 {
+			vAssume(false) // pre-filled variant: no further Add (covered by the PRE=0 entry)
 		}
 		switch op {
 		case 0:
